@@ -431,6 +431,8 @@ class Interp:
         self.rel_prefix = {}
         self.ctor_classes = {}      # ctor name -> (ClassInfo, unit_ndims)
         self.ctor_model = None      # callable(interp, ClassInfo, args, kw)
+        self.choices = {}           # id(If node) -> outcome taken
+        self.pending = []           # decisions first made in this run
         # factory helpers of utils/core.py are modelled, not interpreted
         self.factory = {}
         for prefix, t in trees:
@@ -441,6 +443,30 @@ class Interp:
                             "zeros", "ones", "identity", "number", "pi",
                             "array_like", "guess_literal_ring", "unit_imag"):
                         self.factory[id(n)] = n.name
+
+    def explore_paths(self, run, limit=24):
+        """Call run() once per combination of outcomes of the data-dependent
+        branches it meets (depth-first, at most `limit` runs); run() must
+        build fresh arguments each time.  -> number of runs."""
+        n = 0
+        stack = [{}]
+        while stack and n < limit:
+            preset = stack.pop()
+            self.choices = dict(preset)
+            self.pending = []
+            n += 1
+            try:
+                run()
+            finally:
+                pend = list(self.pending)
+            for i, key in enumerate(pend):
+                alt = dict(preset)
+                for k in pend[:i]:
+                    alt[k] = True
+                alt[key] = False
+                stack.append(alt)
+        self.choices, self.pending = {}, []
+        return n
 
     def lookup(self, name):
         """Resolve a called name in the current module context."""
@@ -564,8 +590,15 @@ class Interp:
                     return self.block(st.orelse, env)
                 if o_r and not b_r:
                     return self.block(st.body, env)
-                raise Unsupported(
-                    f"data-dependent branch at line {st.lineno}")
+                # a genuine data-dependent branch: the driver explores both
+                # outcomes (explore_paths); within one run the same `if`
+                # always goes the same way
+                key = id(st)
+                if key not in self.choices:
+                    self.choices[key] = True
+                    self.pending.append(key)
+                return self.block(st.body if self.choices[key]
+                                  else st.orelse, env)
             t = self.truth(tv)
             return self.block(st.body if t else st.orelse, env)
         if isinstance(st, ast.Pass):
@@ -792,6 +825,12 @@ class Interp:
                 return AScal()
             if ast.unparse(e) == "np.newaxis":
                 return None
+            if isinstance(e.value, ast.Name) and e.value.id == "np" \
+                    and "np" not in env and e.attr in (
+                        "integer", "floating", "inexact", "complexfloating",
+                        "float64", "float32", "int64", "complex128",
+                        "number", "bool_", "signedinteger"):
+                return f"<np.{e.attr}>"
             if isinstance(e.value, ast.Name) and e.value.id in self.mods \
                     and e.value.id not in env:
                 c = self.class_in(e.value.id, e.attr)
@@ -816,6 +855,8 @@ class Interp:
                         for d in m.decorator_list):
                     return self.call_node(m, [v])
                 raise AttributeErrorSim(e.attr)
+            if isinstance(v, (AArr, AScal)) and e.attr == "dtype":
+                return "<dtype>"
             if isinstance(v, ANpScal):
                 if e.attr == "shape":
                     return ()
@@ -1269,6 +1310,9 @@ class Interp:
             return list(args[0])
         if name == "np.reshape" and len(args) >= 2:
             return np_reshape(args[0], args[1])
+        if name in ("np.issubdtype", "np.can_cast", "np.iscomplexobj",
+                    "np.isrealobj"):
+            return ABool()               # depends on the data's type
         if name == "np.arange" and len(args) == 1:
             return AIdx((args[0],))
         if name in ("np.all", "np.any") and isinstance(args[0], AArr):
